@@ -10,8 +10,10 @@ from .containers import RealContainers
 from .refmodels import RefPQ, RefPos
 
 PROP = "C17"
-LEAN_TARGETS = ["Asynkit.Props.C17", "Asynkit.Lemmas.GenEq", "Asynkit.Lemmas.GenEqPQ", "Asynkit.Lemmas.GenEqPosPQ"]
-PROPS_FILES = ["Asynkit/Props/C17.lean", "Asynkit/Lemmas/GenEq.lean", "Asynkit/Lemmas/GenEqPQ.lean", "Asynkit/Lemmas/GenEqPosPQ.lean"]
+LEAN_TARGETS = ["Asynkit.Props.C17", "Asynkit.Lemmas.GenEq", "Asynkit.Lemmas.GenEqPQ", "Asynkit.Lemmas.GenEqPosPQ",
+                "Asynkit.Lemmas.GenEqHeapq"]
+PROPS_FILES = ["Asynkit/Props/C17.lean", "Asynkit/Lemmas/GenEq.lean", "Asynkit/Lemmas/GenEqPQ.lean", "Asynkit/Lemmas/GenEqPosPQ.lean",
+               "Asynkit/Lemmas/GenEqHeapq.lean"]
 DRIVERS = ["PQ"]
 TRUSTED = [
     "Lean 4.33 kernel; axioms ⊆ {propext, Classical.choice, Quot.sound} (audited per theorem each run)",
@@ -25,8 +27,10 @@ TRUSTED = [
     "translator/pospq2lean.py re-translates every method of PosPriorityQueue from the source on each run "
     "(Gen/PosPQ.lean, over the PQ model's operations); Lemmas/GenEqPosPQ.lean proves each equal to Model/PosPQ "
     "(trusted: the statement-level translator, the self._pq.<m> -> PQ.<m> binding, by-value PriorityValue objects)",
-    "CPython heapq meets its documented contract (HeapLib.Lawful); the executable model transcribes "
-    "heapq's sift loops and is compared array-for-array with the real _pq (layout statistic)",
+    "heapq: the model's Cpy.* functions are proved lawful (cpyHeap_lawful) and proved equal to heapq.py of the "
+    "running interpreter, re-translated on every run (translator/heapq2lean.py, Lemmas/GenEqHeapq.lean); trusted: "
+    "the C accelerator _heapq computes what heapq.py computes — tested on every run by the layout statistic "
+    "(real _pq vs model array) and by the differential stream heapq_c_vs_py",
     "list.sort is a stable sort by __lt__",
 ]
 ASSUMPTIONS = [
@@ -659,6 +663,9 @@ def exhaustive_pos(maxlen):
 
 def run(ctx):
     rng = ctx.rng
+    # what is left to trust about heapq after GenEqHeapq: the C accelerator vs heapq.py, array for array
+    from . import c17_heapq
+    c17_heapq.run(ctx, *((3000, 60) if ctx.thorough() else (300, 60)))
     explore(ctx, corpus_cases(), label="corpus: ")
     explore(ctx, list(shape_stream()), label="heap shapes: ")
     if ctx.thorough():
